@@ -14,8 +14,11 @@ import (
 
 	logging "github.com/ipfs/go-log/v2"
 
+	"google.golang.org/protobuf/proto"
+
 	coresequencer "github.com/evstack/ev-node/core/sequencer"
 	"github.com/evstack/ev-node/sequencers/single"
+	pb "github.com/evstack/ev-node/types/pb/evnode/v1"
 
 	"verif/harness/explore"
 	"verif/harness/vf"
@@ -31,6 +34,9 @@ import (
 // inside an operation settles the model on whichever of {applied, not applied} the twin shows, and every history
 // ends with a full drain plus a reload probe (nothing handed out may come back). A history whose oracle fails is
 // reported and not extended, so on a tree with a defect the search reaches a fixpoint of the defect-free states.
+// Initial images: the whole search is repeated for every datastore that an EARLIER VERSION of the queue can have left
+// behind with up to 2 (thorough: 3) pending batches: WAL records keyed by the hex content hash only (the format
+// BatchQueue.Load still parses as "legacy"), see legacyImage.
 
 const queuePrefix = "/batches" // sequencer.go: NewBatchQueue(db, "batches", …)
 
@@ -52,11 +58,14 @@ const (
 	idC
 	idD // thorough tier only
 	idF // only ever submitted under the foreign chain id
+	idX // only ever pending in the initial image (legacy WAL record); content hash 0000000c…
+	idY // legacy only; content hash ffffd982…
+	idZ // legacy only (thorough tier); content hash 80001035…
 	nIDs
 	idUnknown = -1
 )
 
-var idNames = []string{"A", "B", "C", "D", "F"}
+var idNames = []string{"A", "B", "C", "D", "F", "X", "Y", "Z"}
 
 func name(id int) string {
 	if id >= 0 && id < nIDs {
@@ -87,6 +96,13 @@ func mkTxs(id int) [][]byte {
 		return [][]byte{[]byte("d1"), []byte("d2"), []byte("d3")}
 	case idF:
 		return [][]byte{[]byte("foreign")}
+	// contents mined once so that the content hashes start with 0000000 / ffff / 8000 (checked in TestCheck)
+	case idX:
+		return [][]byte{[]byte("legacy-13485594")}
+	case idY:
+		return [][]byte{[]byte("legacy-42988")}
+	case idZ:
+		return [][]byte{[]byte("legacy-126104")}
 	}
 	panic("bad id")
 }
@@ -134,6 +150,55 @@ var hashHex = func() [nIDs]string {
 	}
 	return out
 }()
+
+// ---------------------------------------------------------------------------------------------------------------
+// initial images: datastores written by an earlier version
+
+// legacyImage builds the datastore an earlier version of the queue leaves behind with the given batches accepted and
+// not yet handed out. That version's AddBatch wrote each accepted batch as ONE record <prefix>/<hex(content hash)> =
+// protobuf Batch{txs} (no sequence number; git history of queue.go) and the current parseWALKey classifies exactly
+// these names ('-' not at position 16) as records "written by earlier versions". Such an image is a SET of records:
+// the order in which the earlier version accepted them is not recorded anywhere (and two byte-identical batches
+// share one record), so the image is determined by the set of ids.
+func legacyImage(ids []int) (map[string][]byte, error) {
+	if len(ids) == 0 {
+		return nil, nil
+	}
+	img := map[string][]byte{}
+	for _, id := range ids {
+		enc, err := proto.Marshal(&pb.Batch{Txs: mkTxs(id)})
+		if err != nil {
+			return nil, err
+		}
+		img[queuePrefix+"/"+hashHex[id]] = enc
+	}
+	return img, nil
+}
+
+// legacySets lists every set of at most max legacy records over the candidates, the empty set first.
+// Candidates: X (hash 0000000c…: shares its first 7 characters with every sequence-numbered key and sorts below the
+// hashes of A, B, C, D), Y (hash ffffd982…: sorts above all of them), A (same contents as the batch the alphabet
+// submits, so a legacy record and a sequence-numbered record of byte-identical batches coexist), thorough also
+// Z (hash 80001035…). No 64-digit hash can sort below a sequence-numbered key of a reachable sequence number
+// (it would need 15 leading zero digits), so "below" and "above" are relative to the hash part and to each other.
+func legacySets(cands []int, max int) [][]int {
+	out := [][]int{nil}
+	var rec func(start int, cur []int)
+	rec = func(start int, cur []int) {
+		for i := start; i < len(cands); i++ {
+			next := append(append([]int(nil), cur...), cands[i])
+			out = append(out, next)
+			if len(next) < max {
+				rec(i+1, next)
+			}
+		}
+	}
+	if max > 0 {
+		rec(0, nil)
+	}
+	sort.SliceStable(out, func(i, j int) bool { return len(out[i]) < len(out[j]) })
+	return out
+}
 
 // ---------------------------------------------------------------------------------------------------------------
 // actions
@@ -327,11 +392,13 @@ func compare(got, want []int, afterReload bool) []finding {
 // model is the boring reference.
 type model struct {
 	pending []int
-	dup     uint8 // bit i: two byte-identical copies of batch i were pending at once and i has been pending ever since
+	dup     uint16 // bit i: two byte-identical copies of batch i were pending at once and i has been pending ever since
+	legacy0 int    // number of legacy records in the initial image
+	nLegacy int    // how many of them are still pending (they are the head of pending)
 }
 
 func (m model) clone() model {
-	return model{pending: append([]int(nil), m.pending...), dup: m.dup}
+	return model{pending: append([]int(nil), m.pending...), dup: m.dup, legacy0: m.legacy0, nLegacy: m.nLegacy}
 }
 
 func (m *model) push(id int) {
@@ -344,6 +411,9 @@ func (m *model) push(id int) {
 func (m *model) pop() {
 	head := m.pending[0]
 	m.pending = m.pending[1:]
+	if m.nLegacy > 0 {
+		m.nLegacy--
+	}
 	if count(m.pending)[head] == 0 {
 		m.dup &^= 1 << uint(head)
 	}
@@ -379,6 +449,8 @@ func hashOrderDiffers(pending []int) bool {
 //	                          some still pending batch had.
 //	reload-with-2+-queued     the violation is observed directly after a reload (or crash+reload) that happened while
 //	                          ≥2 distinct batches were pending whose content-hash order differs from arrival order.
+//	legacy-records            the history starts from a datastore written by an earlier version (hash-only WAL keys).
+//	legacy+new-pending        at the violation, legacy records and batches accepted by this version are pending.
 //	has-reload / has-crash    informational.
 func tagsFor(f finding, m model, atReload bool, acts []action, hist []int) []string {
 	var tags []string
@@ -397,6 +469,12 @@ func tagsFor(f finding, m model, atReload bool, acts []action, hist []int) []str
 	}
 	if atReload && hashOrderDiffers(m.pending) {
 		tags = append(tags, "reload-with-2+-queued")
+	}
+	if m.legacy0 > 0 {
+		tags = append(tags, "legacy-records")
+	}
+	if m.nLegacy > 0 && len(m.pending) > m.nLegacy {
+		tags = append(tags, "legacy+new-pending")
 	}
 	hasReload, hasCrash := false, false
 	for _, ai := range hist {
@@ -425,10 +503,19 @@ type result struct {
 	stats struct{ accepted, rejected, delivered, crashes int }
 }
 
-func runHistory(acts []action, bound int, hist []int) (res result) {
-	s, err := open(nil, bound)
+func runHistory(acts []action, bound int, legacy []int, hist []int) (res result) {
+	img0, err := legacyImage(legacy)
 	if err != nil {
-		res.eng = "cannot build sequencer on an empty datastore: " + err.Error()
+		res.eng = "cannot build the initial image: " + err.Error()
+		return
+	}
+	s, err := open(img0, bound)
+	if err != nil {
+		if len(legacy) == 0 {
+			res.eng = "cannot build sequencer on an empty datastore: " + err.Error()
+		} else {
+			res.viols = append(res.viols, viol{clause: "op-error", tags: []string{"legacy-records"}, msg: fmt.Sprintf("cannot start on a datastore with the legacy records %s: %v", names(legacy), err)})
+		}
 		return
 	}
 	var m model
@@ -441,6 +528,59 @@ func runHistory(acts []action, bound int, hist []int) (res result) {
 		fail([]finding{{clause: clause, msg: msg}}, m, false, step)
 	}
 	limit := func(want []int) int { return len(want) + 3 }
+
+	if len(legacy) > 0 {
+		// Start on a datastore of an earlier version. Its records were accepted before anything this version accepts,
+		// so all of them must be handed out, once, before every batch accepted later; among themselves they have no
+		// recorded order: ANY order is accepted, but it must be FIXED - the one the first restart shows is the one
+		// the live instance, a second restart on the same image and every later reload have to show.
+		m.legacy0 = len(legacy)
+		res.trace = append(res.trace, "start on legacy image "+names(legacy))
+		var orders [2][]int
+		for i := range orders {
+			twin, err := open(img0, bound)
+			if err != nil {
+				one("op-error", "restart on the legacy image: "+err.Error(), -1)
+				return
+			}
+			if orders[i], err = twin.drain(limit(legacy)); err != nil {
+				one("op-error", "GetNextBatch after restart on the legacy image: "+err.Error(), -1)
+				return
+			}
+		}
+		got := orders[0]
+		// want = the legacy set, arranged in the observed order (so that compare judges presence only)
+		var want []int
+		left := count(legacy)
+		for _, id := range got {
+			if left[id] > 0 {
+				left[id]--
+				want = append(want, id)
+			}
+		}
+		for _, id := range legacy {
+			if left[id] > 0 {
+				left[id]--
+				want = append(want, id)
+			}
+		}
+		if fs := compare(got, want, true); len(fs) > 0 {
+			for i := range fs {
+				fs[i].msg = "first start on the datastore of an earlier version: " + fs[i].msg
+			}
+			fail(fs, model{pending: want, legacy0: len(legacy), nLegacy: len(legacy)}, true, -1)
+			return
+		}
+		if names(orders[0]) != names(orders[1]) {
+			m.pending, m.nLegacy = want, len(want)
+			one("fifo-order", fmt.Sprintf("two restarts on the same datastore of an earlier version hand out its records in different orders: %s vs %s", names(orders[0]), names(orders[1])), -1)
+			return
+		}
+		for _, id := range got {
+			m.push(id)
+		}
+		m.nLegacy = len(got)
+	}
 
 	for step, ai := range hist {
 		a := acts[ai]
@@ -637,7 +777,7 @@ func runHistory(acts []action, bound int, hist []int) (res result) {
 		return
 	}
 	if len(again) > 0 {
-		fail([]finding{{clause: "exactly-once", msg: fmt.Sprintf("after everything was handed out (%s), a reload hands out %s again", names(got), names(again))}}, model{}, false, last)
+		fail([]finding{{clause: "exactly-once", msg: fmt.Sprintf("after everything was handed out (%s), a reload hands out %s again", names(got), names(again))}}, model{legacy0: m.legacy0}, false, last)
 	}
 	return
 }
@@ -651,10 +791,11 @@ func histHash(hist []int) int {
 }
 
 type replay struct {
-	Bound int             `json:"bound"`
-	Hist  []int           `json:"hist"`
-	Conc  []explore.Point `json:"conc,omitempty"` // concurrent part: the scheduler (and crash) choices
-	CC    *concCfg        `json:"conc_cfg,omitempty"`
+	Bound  int             `json:"bound"`
+	Legacy []int           `json:"legacy,omitempty"` // batch ids of the legacy records in the initial image
+	Hist   []int           `json:"hist"`
+	Conc   []explore.Point `json:"conc,omitempty"` // concurrent part: the scheduler (and crash) choices
+	CC     *concCfg        `json:"conc_cfg,omitempty"`
 }
 
 func TestCheck(t *testing.T) {
@@ -668,7 +809,16 @@ func TestCheck(t *testing.T) {
 	depth := vf.Pick(r, 8, 12)
 	bounds := vf.Pick(r, []int{2, 3}, []int{1, 2, 3, 4})
 	acts := alphabet(r.Thorough())
+	legacyCands := vf.Pick(r, []int{idX, idY, idA}, []int{idX, idY, idZ, idA})
+	maxLegacy := vf.Pick(r, 2, 3)
+	legacyDepth := vf.Pick(r, 8, 10) // depth bound of the searches that start from a non-empty legacy image
+	for id, pre := range map[int]string{idX: "0000000", idY: "ffff", idZ: "8000"} {
+		if !strings.HasPrefix(hashHex[id], pre) {
+			r.EngineError(fmt.Sprintf("content hash of legacy batch %s is %s, expected prefix %s (Batch.Hash changed: re-mine the contents)", name(id), hashHex[id], pre))
+		}
+	}
 	r.Assume = []string{
+		"initial images: an earlier version of the queue wrote one WAL record per accepted batch under the hex content hash only (no sequence number) - the key shape BatchQueue.Load still classifies as legacy; such records were accepted before anything the running version accepts, they carry no arrival order among themselves (any FIXED order is accepted), and an image holds at most as many of them as the configured queue size",
 		"datastore contract: a single Put/Delete is atomic and durable and Query iterates in key order (badger), modelled by the logging KV double",
 		"an empty answer of GetNextBatch means the queue is empty (drain probes stop at the first empty answer)",
 		"concurrent part: atomicity grain of the schedules = [operation start .. Lock() entry], [Lock() .. datastore operation], [datastore operation .. next datastore operation or return]; code between two such points runs without interleaving (the queue has no other synchronisation than its mutex), memory effects are sequentially consistent",
@@ -694,8 +844,8 @@ func TestCheck(t *testing.T) {
 				return
 			}
 			acts = alphabet(true) // superset; indices of the common actions agree
-			res := runHistory(acts, rp.Bound, rp.Hist)
-			fmt.Printf("replay bound=%d: %s\n", rp.Bound, strings.Join(res.trace, " ; "))
+			res := runHistory(acts, rp.Bound, rp.Legacy, rp.Hist)
+			fmt.Printf("replay bound=%d legacy=%s: %s\n", rp.Bound, names(rp.Legacy), strings.Join(res.trace, " ; "))
 			for _, v := range res.viols {
 				r.Report(vf.Violation{Clause: v.clause, Tags: v.tags, Msg: v.msg, Cost: len(rp.Hist), History: rp})
 			}
@@ -710,10 +860,58 @@ func TestCheck(t *testing.T) {
 	var accepted, rejected, delivered, crashes int64
 	var cmu sync.Mutex
 	complete, fixpoint := true, true
-	deadline := vf.Pick(r, 40*time.Second, 14*time.Minute) / time.Duration(len(bounds))
+	// one search per (queue size, initial image); the time budget of the sequential part is shared: every search
+	// may use an equal share of what is left
+	type job struct {
+		bound  int
+		legacy []int
+	}
+	var jobs []job
 	for _, bound := range bounds {
-		st := explore.BFS(explore.BFSConfig{Depth: depth, Actions: len(acts), Deadline: deadline}, func(hist []int) explore.Step {
-			res := runHistory(acts, bound, hist)
+		for _, legacy := range legacySets(legacyCands, maxLegacy) {
+			if len(legacy) <= bound {
+				jobs = append(jobs, job{bound, legacy})
+			}
+		}
+	}
+	budget := vf.Pick(r, 40*time.Second, 14*time.Minute)
+	seqStart := time.Now()
+	perImage := map[string]any{}
+	var legacyStates, legacyTransitions int64
+	legacyImages := map[string]bool{}
+	for ji, j := range jobs {
+		bound, legacy := j.bound, j.legacy
+		d := depth
+		if len(legacy) > 0 {
+			d = legacyDepth
+		}
+		deadline := (budget - time.Since(seqStart)) / time.Duration(len(jobs)-ji)
+		if deadline < time.Second {
+			deadline = time.Second
+		}
+		report := func(res result, hist []int) {
+			for _, v := range res.viols {
+				start := ""
+				if len(legacy) > 0 {
+					start = fmt.Sprintf(", datastore of an earlier version with pending %s", names(legacy))
+				}
+				r.Report(vf.Violation{Clause: v.clause, Tags: v.tags, Msg: fmt.Sprintf("queue size %d%s: %s\n history: %s", bound, start, v.msg, strings.Join(res.trace, " ; ")), Cost: len(hist), History: replay{Bound: bound, Legacy: legacy, Hist: hist}})
+			}
+		}
+		if len(legacy) > 0 {
+			// the start itself is judged once; if it fails there is nothing to extend
+			if res := runHistory(acts, bound, legacy, nil); res.eng != "" || len(res.viols) > 0 {
+				if res.eng != "" {
+					r.EngineError(res.eng)
+				}
+				report(res, nil)
+				total.Transitions++
+				legacyTransitions++
+				continue
+			}
+		}
+		st := explore.BFS(explore.BFSConfig{Depth: d, Actions: len(acts), Deadline: deadline}, func(hist []int) explore.Step {
+			res := runHistory(acts, bound, legacy, hist)
 			if res.eng != "" {
 				r.EngineError(res.eng)
 				return explore.Step{Prune: true}
@@ -728,15 +926,13 @@ func TestCheck(t *testing.T) {
 			crashes += int64(res.stats.crashes)
 			cmu.Unlock()
 			if len(res.viols) > 0 {
-				for _, v := range res.viols {
-					r.Report(vf.Violation{Clause: v.clause, Tags: v.tags, Msg: fmt.Sprintf("queue size %d: %s\n history: %s", bound, v.msg, strings.Join(res.trace, " ; ")), Cost: len(hist), History: replay{Bound: bound, Hist: hist}})
-				}
+				report(res, hist)
 				return explore.Step{Prune: true}
 			}
-			if h := histHash(hist); len(hist) >= 4 && h%29 == 0 {
+			if h := histHash(hist); len(hist) >= 4 && (h+len(legacy)*7)%29 == 0 && (len(legacy) == 0 || h%3 == 0) {
 				r.Sample(fmt.Sprintf("queue size %d: %s", bound, strings.Join(res.trace, " ; ")))
 			}
-			r.Outcome(fmt.Sprintf("%d|%s", bound, res.key))
+			r.Outcome(fmt.Sprintf("%d|%s|%s", bound, names(legacy), res.key))
 			return explore.Step{Key: res.key}
 		})
 		total.States += st.States
@@ -747,14 +943,30 @@ func TestCheck(t *testing.T) {
 		if !fix {
 			fixpoint = false
 		}
-		if !(st.DepthDone == depth || fix) {
+		if !(st.DepthDone == d || fix) {
 			complete = false
 		}
-		if st.Capped != "" {
-			caps = append(caps, fmt.Sprintf("queue size %d: %s", bound, st.Capped))
+		where := fmt.Sprintf("queue size %d", bound)
+		if len(legacy) > 0 {
+			where += ", legacy image " + names(legacy)
 		}
-		perBound[fmt.Sprintf("queue_size_%d", bound)] = map[string]any{"states": st.States, "transitions": st.Transitions, "depth_done": st.DepthDone, "fixpoint_reached": fix, "states_per_level": st.PerLevel}
+		if st.Capped != "" {
+			caps = append(caps, where+": "+st.Capped)
+		}
+		if len(legacy) == 0 {
+			perBound[fmt.Sprintf("queue_size_%d", bound)] = map[string]any{"states": st.States, "transitions": st.Transitions, "depth_done": st.DepthDone, "fixpoint_reached": fix, "states_per_level": st.PerLevel}
+		} else {
+			legacyStates += st.States
+			legacyTransitions += st.Transitions
+			legacyImages[names(legacy)] = true
+			perImage[fmt.Sprintf("queue_size_%d/legacy%s", bound, names(legacy))] = map[string]any{"states": st.States, "transitions": st.Transitions, "depth_done": st.DepthDone, "fixpoint_reached": fix}
+		}
 	}
+	var imageNames []string
+	for k := range legacyImages {
+		imageNames = append(imageNames, k)
+	}
+	sort.Strings(imageNames)
 	// concurrent part (concurrent_test.go): thread programs x queue size x preloaded batches, every interleaving of
 	// the scheduling steps (or delay-bounded), each ending in a fork live-vs-restart or in a crash cut. synctest
 	// bubbles do not scale over goroutines, so the subtrees below each root execution are dealt out to processes.
@@ -778,10 +990,12 @@ func TestCheck(t *testing.T) {
 	concBounds := concBoundsText(r.Thorough())
 	r.Finish(vf.Coverage{
 		Evaluations: total.Transitions + cr.Executions, DistinctNontrivial: total.States, States: total.States, Transitions: total.Transitions,
-		Rule: "SEQUENTIAL: every operation history up to the depth bound over the alphabet (submit A / B / A again with identical bytes / C, submit empty, submit under a foreign chain id, next, reload = new sequencer on the same datastore image, crash before the k-th durable write of a submit or a next followed by reload), for each queue size, executed from scratch on the real single.Sequencer over the logging datastore double; every history ends with a full drain and a reload probe; a history whose oracle fails is reported and not extended; histories are merged when volatile queue state (all BatchQueue fields, by reflection hook), durable image and reference model agree (the sequencer has no other mutable state); distinct = distinct merged states. " +
+		Rule: "SEQUENTIAL: every operation history up to the depth bound over the alphabet (submit A / B / A again with identical bytes / C, submit empty, submit under a foreign chain id, next, reload = new sequencer on the same datastore image, crash before the k-th durable write of a submit or a next followed by reload), for each queue size, executed from scratch on the real single.Sequencer over the logging datastore double; each search is run from the empty datastore AND from every datastore image an earlier version of the queue can have left behind with up to 2 (thorough 3) accepted-and-undelivered batches out of the candidate records (WAL records keyed by the hex content hash only: hashes below / above / equal to those of the batches submitted later, one sharing 7 leading zeros with the sequence-numbered keys), where the reference model takes the order of the legacy records from the first restart (any order, but a second restart, the live instance and every later reload must show the same one) and puts everything accepted later behind them; every history ends with a full drain and a reload probe; a history whose oracle fails is reported and not extended; histories are merged when volatile queue state (all BatchQueue fields, by reflection hook), durable image and reference model agree (the sequencer has no other mutable state); distinct = distinct merged states. " +
 			"CONCURRENT: for each thread program (submitters and a consumer calling the real Sequencer), queue size 1-3 and 0/1 batch carried over a restart beforehand: every interleaving (for the larger programs: every interleaving within the delay bound) of the threads' scheduling steps, where the start of an operation, the ENTRY of every Lock() of the queue mutex (also when it is free, so whatever an operation evaluates before taking the lock is a step of its own), a wait for the held mutex and every datastore operation are scheduling points. An execution that runs to quiescence is forked: the live instance is drained AND a sequencer restarted on a copy of the datastore is drained; oracle = concurrent history + live drain linearizable w.r.t. a bounded exactly-once FIFO (porcupine), restarted instance hands out the same batches in the same order as the live one (WAL == in-memory queue), nothing comes back after a further restart. With crash cuts, additionally at every scheduling point the process is killed with calls in flight and a sequencer restarted on the datastore as it is: for some fate of each in-flight call (not applied / applied / a submission also: applied in memory only), completed calls + crash + restart drain must be linearizable",
 		Exhaustive: complete && len(caps) == 0, Caps: caps,
 		Bounds: map[string]any{"depth": depth, "state_space_fixpoint_reached": fixpoint, "queue_sizes": bounds, "alphabet": len(acts), "per_queue_size": perBound,
+			"legacy_images": map[string]any{"records_per_image": fmt.Sprintf("0..%d (at most the queue size)", maxLegacy), "candidate_records": names(legacyCands), "content_hashes": map[string]string{"X": hashHex[idX], "Y": hashHex[idY], "Z": hashHex[idZ], "A": hashHex[idA]},
+				"images": imageNames, "depth": legacyDepth, "states": legacyStates, "transitions": legacyTransitions, "per_queue_size_and_image": perImage},
 			"concurrent": map[string]any{"queue_sizes": []int{1, 2, 3}, "preloaded_batches_carried_over_a_restart": []int{0, 1}, "crash_cuts_per_execution": "at most 1", "thread_programs": concBounds}},
 		Extra: map[string]any{"concurrent_executions": cr.Executions, "concurrent_decision_points": cr.Points, "concurrent_processes": cr.Shards, "concurrent_per_thread_program": concPer, "concurrent_samples": cr.Samples,
 			"submissions_accepted": accepted, "submissions_rejected": rejected, "batches_delivered_in_histories": delivered, "crashes_injected": crashes},
